@@ -10,17 +10,18 @@ import (
 
 // GenParams selects which features the generated scenarios exercise.
 type GenParams struct {
-	Silences  bool
-	Inhibit   bool
-	Intervals bool
-	Faults    bool
-	Reload    bool
-	Restart   bool
-	Gets      bool
-	MaxSteps  int
-	LongTail  bool // tail long enough for repeat_interval obligations
-	DeepTree  bool
-	Flap      bool // prefix: resolve, then re-fire while the (slow) resolved notification is in flight
+	GroupLimit bool // sometimes run with an aggregation-group limit that can never legitimately bind
+	Silences   bool
+	Inhibit    bool
+	Intervals  bool
+	Faults     bool
+	Reload     bool
+	Restart    bool
+	Gets       bool
+	MaxSteps   int
+	LongTail   bool // tail long enough for repeat_interval obligations
+	DeepTree   bool
+	Flap       bool // prefix: resolve, then re-fire while the (slow) resolved notification is in flight
 }
 
 func ip(i int) *int { return &i }
@@ -216,6 +217,9 @@ func GenScenario(t *rapid.T, p GenParams) Scenario {
 		DispMaint:  sampled(t, "dm", 15, 30),
 		Maint:      sampled(t, "maint", 300, 900),
 		StartDelay: sampled(t, "sd", 0, 0, 0, 20),
+	}
+	if p.GroupLimit {
+		sc.Opts.GroupLimit = rapid.Bool().Draw(t, "groupLimit")
 	}
 	maxSteps := p.MaxSteps
 	if maxSteps == 0 {
